@@ -208,7 +208,7 @@ InputsFor(D, d, mode) ==
   Map1(InputsOf(D, d, mode, ColTargets, ColPathSeq, ColReqs) \o InputsOf(D, d, mode, TabTargets, TabPathSeq, TabReqs),
        LAMBDA x : x[2])
 \* the documents and the inputs of this configuration
-Space == LET D1 == Doc(1) IN
+Space == LET D1 == Doc(1)
              m1 == IF Full THEN "full" ELSE "quick" IN
          IF Level < 2 THEN [docs |-> <<D1>>, xs |-> InputsFor(D1, 1, m1)]
          ELSE LET D2 == Doc(2) IN [docs |-> <<D1, D2>>, xs |-> InputsFor(D1, 1, m1) \o InputsFor(D2, 2, "reduced")]
